@@ -9,7 +9,7 @@ import random
 
 XMLNS = "http://www.w3.org/XML/1998/namespace"
 XMLNS_URI = "http://www.w3.org/XML/1998/namespace"      # bound to another prefix (or as default): accepted by the crate
-URIS = ["u1", "u2", "u3", "http://x?a=1&b=2", "u v", XMLNS_URI]
+URIS = ["u1", "u2", "u3", "http://x?a=1&b=2", "u v", XMLNS_URI, "a b c d"]
 
 
 def cps(s):
@@ -117,7 +117,7 @@ def part(r, s):
 ENT = {38: "amp", 60: "lt", 62: "gt", 39: "apos", 34: "quot"}
 
 
-def spell_char(c, ch, attr, quote, prev2):
+def spell_char(c, ch, attr, quote, prev2, litmode=False):
     """choices of pieces that denote character c in the given context"""
     opts = []
     if c == 10 and not attr:
@@ -134,6 +134,9 @@ def spell_char(c, ch, attr, quote, prev2):
         pass  # ]]> must not appear raw in character data
     else:
         opts.append(piece("lit", c))
+    if litmode and opts:
+        # a value written without references wherever that is possible (what a "nothing to decode here" shortcut sees)
+        return opts[ch.pick(len(opts), "litchar")]
     if c in ENT:
         opts.append(piece("ent", n=ENT[c]))
     opts.append(piece("dec", c))
@@ -145,8 +148,9 @@ def spell_char(c, ch, attr, quote, prev2):
 def spell_value(val, ch, attr, quote):
     ps = []
     spelled = []
+    litmode = ch.pick(3, "litmode") == 1
     for c in val:
-        p = spell_char(c, ch, attr, quote, spelled[-2:])
+        p = spell_char(c, ch, attr, quote, spelled[-2:], litmode)
         # a CR piece directly followed by an LF piece would be ONE line end (CR LF) in the text
         if p["t"] == "eol" and p["e"] == "lf" and ps and ps[-1]["t"] == "eol" and ps[-1]["e"] == "cr":
             p = piece("eol", e="crlf")
@@ -242,12 +246,26 @@ def render_text(val, ch, toks):
     i = 0
     n = len(val)
     maybe_empty_cdata(ch, toks)
+    # a carriage return (necessarily a reference) followed later by a line feed: now and then put the line feed into a
+    # CDATA section of its own, where it may be written CR or CR LF - two kinds of CR in one text node
+    forced = None
+    crs = [k for k, c in enumerate(val) if c == 13]
+    if crs:
+        lfs = [k for k, c in enumerate(val) if c == 10 and k > crs[0]]
+        if lfs and ch.pick(2, "crsplit") == 1:
+            b = lfs[0]
+            a = max(k for k in crs if k < b)
+            forced = (a + 1, b + 1)
     while i < n:
         # length of this run
         j = n if ch.pick(2, "split") == 0 else i + 1 + ch.pick(max(1, n - i), "splitat") % (n - i)
         j = max(i + 1, min(j, n))
+        if forced and i < forced[0]:
+            j = forced[0]
+        elif forced and i == forced[0]:
+            j = forced[1]
         run = val[i:j]
-        as_cdata = ch.pick(3, "cdata") == 2 and 13 not in run and not has_cdata_end(run)
+        as_cdata = (ch.pick(3, "cdata") == 2 or (forced is not None and i == forced[0])) and 13 not in run and not has_cdata_end(run)
         if as_cdata:
             # LF inside CDATA may be written CR or CRLF
             spelled = []
@@ -350,10 +368,16 @@ def text_of(toks):
 # ------------------------------------------------------------------------------------------------ abstract documents
 NSS = ["", "u1", "u2"]
 LNS = ["a", "b", "c"]
-CLASSCHARS = [120, 60, 38, 62, 93, 34, 39, 9, 10, 13, 233, 0x1F600, 32]
+CLASSCHARS = [120, 60, 38, 62, 93, 34, 39, 9, 10, 13, 233, 0x1F600, 32, 0x85, 0x2028]       # NEL and LS are ordinary characters in XML 1.0
+
+
+# character data in which line ends, carriage returns given as references, brackets and CDATA boundaries interact
+TRICKY = [[120, 13, 121, 10, 122], [13, 10], [97, 13, 13, 98, 10], [13, 120, 10, 10], [93, 93, 62, 10], [120, 10, 13, 10, 121], [13, 93, 93], [10, 13]]
 
 
 def rand_string(rnd, maxlen, rich=True):
+    if rich and maxlen >= 4 and rnd.random() < 0.12:
+        return list(rnd.choice(TRICKY))
     n = rnd.randrange(maxlen + 1)
     alpha = CLASSCHARS if rich else [120, 121, 32]
     return [rnd.choice(alpha) for _ in range(n)]
@@ -383,6 +407,10 @@ def rand_elem(rnd, depth, scope, budget, rich=True):
     for _ in range(rnd.choice([0, 0, 1, 2])):
         a_ns = rnd.choice(attr_ns_choices)
         a_ln = rnd.choice(LNS)
+        if a_ns == "" and rnd.random() < 0.15:
+            a_ln = rnd.choice(["p", "q"])      # an attribute called like a prefix that the same tag may declare
+        if a_ns != "" and rnd.random() < 0.1:
+            a_ln = "xmlns"          # p:xmlns="v" is an ordinary attribute in p's namespace, not a declaration
         if (a_ns, a_ln) in [(a[0], a[1]) for a in attrs]:
             continue
         attrs.append((a_ns, a_ln, rand_string(rnd, 4, rich)))
@@ -393,7 +421,7 @@ def rand_elem(rnd, depth, scope, budget, rich=True):
     if rnd.random() < 0.08:
         attrs.append((XMLNS, "space", cps(rnd.choice(["preserve", "default"]))))
     kids = []
-    nk = rnd.randrange(0, 4) if depth > 0 else rnd.randrange(0, 2)
+    nk = rnd.choice([0, 1, 2, 3, 3, 4, 5, 7]) if depth > 0 else rnd.choice([0, 1, 1, 3, 4])     # (bounded by the size budget)
     last_text = False
     for _ in range(nk):
         if budget[0] <= 0:
@@ -423,7 +451,7 @@ def rand_elem(rnd, depth, scope, budget, rich=True):
 
 
 def rand_comment(rnd):
-    s = [rnd.choice([120, 32, 60, 38, 45, 233, 10]) for _ in range(rnd.randrange(4))]
+    s = [rnd.choice([120, 32, 60, 38, 45, 233, 10, 13, 13]) for _ in range(rnd.randrange(4))]     # CR, CR LF: kept verbatim
     # no "--" and no trailing "-"
     out = []
     for c in s:
@@ -440,9 +468,9 @@ def rand_pi(rnd):
     target = rnd.choice(["pa", "pb", "pa", "pb", "xml-stylesheet", "xmlx", "XmLfoo", "xm", "x", "axml"])
     if rnd.random() < 0.4:
         return ("pi", target, None)
-    data = [rnd.choice([120, 32, 60, 38, 62, 233]) for _ in range(1 + rnd.randrange(3))]
-    if data[0] == 32:
-        data[0] = 120
+    data = [rnd.choice([120, 32, 60, 38, 62, 233, 32, 9, 10, 13]) for _ in range(1 + rnd.randrange(4))]
+    if data[0] in (32, 9, 10, 13):
+        data[0] = 120            # (leading white space is the separator, trailing white space is data)
     # no "?>"
     data = [c for i, c in enumerate(data) if not (c == 62 and i > 0 and data[i - 1] == 63)]
     return ("pi", target, data)
@@ -496,7 +524,7 @@ DAMAGES = ["dup-attr-expanded-inherited", "rename-etag", "delete-etag", "duplica
            "dup-attr-qname", "dup-attr-expanded", "dup-prefix-decl", "undeclared-elem-prefix", "undeclared-attr-prefix",
            "raw-lt", "raw-amp", "cdata-end-in-text", "unterminated-comment", "double-dash-comment", "unterminated-pi", "unterminated-cdata",
            "unterminated-ref", "unknown-entity", "bad-charref-syntax", "nonchar-ref", "dtd", "version-1.1", "dup-xml-id", "unclosed-root",
-           "etag-other-prefix-same-ns", "truncated-stag", "lt-in-attr", "prefix-after-scope", "charref-overflow", "dup-xml-id-other-prefix"]
+           "etag-other-prefix-same-ns", "truncated-stag", "lt-in-attr", "prefix-after-scope", "charref-overflow", "dup-xml-id-other-prefix", "pi-target-xml-case"]
 
 NONCHARS = [0, 1, 8, 11, 0xFFFE, 0xFFFF, 0xD800, 0x110000]
 
@@ -665,7 +693,8 @@ def damage(toks, kind, rnd, mode="doc"):
         ins = 1 if t and t[0]["k"] == "decl" else 0
         t.insert(ins, tok("dtd", [part("lit", rnd.choice(["<!DOCTYPE a>", "<!DOCTYPE a [<!ENTITY e 'x'>]>", '<!DOCTYPE a SYSTEM "a.dtd">']))]))
     elif kind == "version-1.1":
-        d = tok("decl", [part("lit", '<?xml version="1.1"?>')], ver="1.1")
+        ver = rnd.choice(["1.1", "1.00", "1.01", "2.0", "1.000", "01.0", "1.10"])
+        d = tok("decl", [part("lit", '<?xml version="%s"?>' % ver)], ver=ver)
         if t and t[0]["k"] == "decl":
             t[0] = d
         else:
@@ -713,6 +742,15 @@ def damage(toks, kind, rnd, mode="doc"):
         t[i]["parts"][1]["s"] = cps("e1:" + ln)
         t[j]["px"] = "e2"
         t[j]["parts"][1]["s"] = cps("e2:" + ln)
+    elif kind == "pi-target-xml-case":
+        # the reserved target in another letter case, wherever a processing instruction may stand
+        bad = junk(rnd.choice(["<?XML x?>", "<?Xml?>", "<?xmL version=\"1.0\"?>", "<?XML?>", "<?xMl y ?>"]), "reserved-pi-target")
+        if content_pos and rnd.random() < 0.6:
+            t.insert(rnd.choice(content_pos), bad)
+        elif rnd.random() < 0.5:
+            t.append(bad)
+        else:
+            t.insert(1 if t and t[0]["k"] == "decl" else 0, bad)
     elif kind == "truncated-stag":
         t.append(junk(rnd.choice(["<a", "<a b='1'", "<a b=", "<"]), "truncated-stag"))
     elif kind == "lt-in-attr" and stags:
